@@ -34,7 +34,7 @@ def matches(v, finding):
 
 NUM_KEYS = ["memory_stops", "scenarios", "incomplete_scenarios", "single_outcome_scenarios", "states", "transitions", "invocations",
             "schedules", "commands", "multi_outcome_points", "tainted_worlds", "dev_capped", "crash_runs", "crash_worlds", "io_fault_runs",
-            "js_runs", "js_moves", "js_spins"]
+            "js_runs", "js_moves", "js_spins", "desc_allocs"]
 
 
 def run(check, scenarios, props, depth=None, devbound=None, seconds=None, tag="nx", extra=()):
@@ -177,6 +177,7 @@ def coverage(agg, rule, families, extra=None):
         "incomplete_scenarios": agg["incomplete_scenarios"],
         "scenarios_stopped_by_the_memory_budget": agg.get("memory_stops", 0),
         "worlds_not_expanded_because_tainted_by_a_finding": agg["tainted_worlds"],
+        "edge_and_node_objects_placed_at_descending_addresses": agg.get("desc_allocs", 0),
         "jobserver_invocations_in_process": agg.get("js_runs", 0),
         "jobserver_moves_of_the_other_client": agg.get("js_moves", 0),
         "jobserver_busy_waits_observed": agg.get("js_spins", 0),
